@@ -3534,7 +3534,13 @@ class __implementations__:
 
     @implements(numpy.transpose)
     def transpose(array: Array, axes: Optional[Sequence[int]] = None) -> Array:
-        return _Transpose(array, tuple(reversed(range(array.ndim)) if axes is None else axes))
+        if axes is None:
+            axes = reversed(range(array.ndim))
+        else:
+            axes = tuple(numeric.normdim(array.ndim, axis) for axis in axes)
+            if sorted(axes) != list(range(array.ndim)):
+                raise ValueError("axes don't match array")
+        return _Transpose(array, tuple(axes))
 
     @implements(numpy.repeat)
     def repeat(array: IntoArray, n: IntoArray, axis: int) -> Array:
